@@ -92,6 +92,17 @@ Theorem c11_roundtrip_scalar : forall nd t v post, ty_ok t -> wf t v -> is_ld t 
 Proof. exact roundtrip_nld. Qed.
 Print Assumptions c11_roundtrip_scalar.
 
+(* a non-null smart pointer to a scalar / non-empty string at top level of a stream WITHOUT any limit comes back
+   (the allocation guard of unique_ptr.h / shared_ptr.h is regenerated: "a byte is readable") *)
+Theorem c11_roundtrip_unlimited_scalar_ptr : forall nd sh k z, in_range k z ->
+  parse nd true (TPtr sh (TS k)) (encode (TPtr sh (TS k)) (VSome (VInt z))) = Ok (VSome (VInt z)) (mkS [] None).
+Proof. exact roundtrip_unlimited_scalar_ptr. Qed.
+Print Assumptions c11_roundtrip_unlimited_scalar_ptr.
+Theorem c11_roundtrip_unlimited_string_ptr : forall nd sh b, b <> [] ->
+  parse nd true (TPtr sh TStr) (encode (TPtr sh TStr) (VSome (VStr b))) = Ok (VSome (VStr b)) (mkS [] None).
+Proof. exact roundtrip_unlimited_string_ptr. Qed.
+Print Assumptions c11_roundtrip_unlimited_string_ptr.
+
 (* hash containers: whatever order the container iterates in, the entries come back (in that order) *)
 Theorem c11_roundtrip_set_any_order : forall nd e l l', ty_ok (TSet e) -> wf (TSet e) (VSeq l) -> Permutation l l' ->
   parse nd false (TSet e) (encode (TSet e) (VSeq l')) = Ok (VSeq (map (norm e) l')) (S0 []) /\
